@@ -308,6 +308,62 @@ def run_wide_family(ctx, binpath, seed, count, threads=(1, 6, 16)):
         return list(ex.map(work, tasks))
 
 
+def run_roomsfile_pairs(ctx, binpath, seed, count):
+    """C17 on the real binary: `count` wide instances, each run without rooms, with --rooms <nc rooms of a size no course can exceed> and with a
+    --rooms-file describing the same rooms as kinds (one name for all, the kind given in two or three entries; entries of quantity 0 and
+    different names in between).  Returns [(instance, kinds, {variant: (exit, score)})]"""
+    import random
+    from concurrent.futures import ThreadPoolExecutor
+    d = os.path.join(ctx.work, "rfpairs")
+    os.makedirs(d, exist_ok=True)
+    r = random.Random(seed)
+    tasks = []
+    for k in range(count):
+        inst, _ = wide_instance(r)
+        if k % 3 == 2:
+            # small instance, every course can take place
+            nc = r.randint(2, 4)
+            inst = {"format": "X-coursedata-simple", "version": "1.0",
+                    "courses": [{"name": "K%d" % c, "num_min": 1, "num_max": 3, "instructors": []} for c in range(nc)],
+                    "participants": [{"name": "t%d" % i, "choices": [{"course": i % nc, "penalty": 0}, {"course": (i + 1) % nc, "penalty": 1}]}
+                                     for i in range(nc + r.randint(0, 3))]}
+        nc = len(inst["courses"])
+        cap = max(c["num_max"] + len(c["instructors"]) for c in inst["courses"]) + r.randint(0, 2)
+        j = 1 + k % max(1, nc - 1)
+        split = [j, nc - j] if k % 4 != 3 or nc < 3 else [1, 1, nc - 2]
+        name = ["Raum", "Saal \u00df", "R"][k % 3]
+        kinds = [{"name": name, "capacity": cap, "quantity": q} for q in split]
+        if k % 2 == 1:
+            kinds.insert(1, {"name": name, "capacity": cap, "quantity": 0})
+        if k % 5 == 4:
+            kinds.append({"name": "Kammer", "capacity": 1, "quantity": 0})
+        f = os.path.join(d, "rf_%03d.json" % k)
+        json.dump(inst, open(f, "w"))
+        rf = os.path.join(d, "rf_%03d_rooms.json" % k)
+        json.dump(kinds, open(rf, "w"))
+        tasks.append((k, inst, kinds, f, rf, [cap] * nc))
+
+    def work(t):
+        k, inst, kinds, f, rf, sizes = t
+        outs = {}
+        for v, extra in (("none", []), ("rooms", ["--rooms", ",".join(map(str, sizes))]), ("rooms_file", ["--rooms-file", rf])):
+            o = os.path.join(d, "rf_out_%03d_%s.json" % (k, v))
+            if os.path.exists(o):
+                os.remove(o)
+            run = run_bin(binpath, ["--num-threads", "1"] + extra + [f, o])
+            sc = None
+            if run["rc"] == 0:
+                try:
+                    sc = json.load(open(o))["quality"]["solution_score"]
+                except Exception:
+                    sc = "unreadable output"
+            outs[v] = (run["rc"], sc)
+        return (inst, kinds, outs)
+
+    with ThreadPoolExecutor(max_workers=8) as ex:
+        return list(ex.map(work, tasks))
+
+
 def large_instance(r):
     """a large instance: one plenary course with a minimum size above 100 (percentages and ranks computed from sizes of that magnitude differ
     from what small instances show), two or three small courses, 105-160 participants most of whom want the plenary first; no instructors
